@@ -93,6 +93,17 @@ Definition index_line_ok (l : bytes) : bool :=
         | _ => false
         end).
 
+(* Index.AddStage refuses a stage path that the one-path-per-line index file (trimmed when read)
+   cannot hold: surrounding white space, CR or LF; and, like index.FromFile, a path outside the
+   project *)
+Definition is_space (b : N) : bool :=
+  (b =? 32) || (b =? 9) || (b =? 10) || (b =? 11) || (b =? 12) || (b =? 13) || (b =? 133) || (b =? 160).
+Definition path_storable (p : bytes) : bool :=
+  negb (existsb (fun b => (b =? 10) || (b =? 13)) p) &&
+  match p with [] => true | b :: _ => negb (is_space b) end &&
+  match rev p with [] => true | b :: _ => negb (is_space b) end.
+Definition stage_path_ok (p : bytes) : bool := path_storable p && index_line_ok p.
+
 (* index.FromFile: every listed stage file must load, validate and be addable, in file order *)
 Fixpoint load_index (lines : list bytes) (files : list (bytes * option stage)) (idx : index) : option index :=
   match lines with
